@@ -187,6 +187,13 @@ let parse_resp toks =
       (Some { r_avail = avail; r_patch = patch; r_rb = rbl }, rest)
   | _ -> failwith "bad resp"
 
+let parse_matches (t : Stdlib.String.t) : bmatch list =
+  if t = "-" then [] else
+    List.map (fun m -> match split '.' m with
+        | [a; b; c; d] -> { add_old_start = n_of_decimal a; add_new_start = n_of_decimal b;
+                            add_length = n_of_decimal c; copy_end = n_of_decimal d }
+        | _ -> failwith "bad match") (split ',' t)
+
 (* snapshots for stale-file damage: state files after each op index *)
 let snaps_pj : (int, pstate jfile) Hashtbl.t = Hashtbl.create 64
 let snaps_sj : (int, sstate jfile) Hashtbl.t = Hashtbl.create 64
@@ -310,6 +317,18 @@ let () =
             | Some b -> let s = ostring_of_bytes b in
               Printf.printf "apply=ok:%d.%s\n" (Stdlib.String.length s) (hex_o (sha256_o s)))
        | ["sha"; b] -> print_endline ("sha=" ^ hex_o (sha256_o (blob_tok b)))
+       | ["wfm"; o; nw; ms] ->
+           let b = wf_matches (bytes_of_ostring (blob_tok o)) (bytes_of_ostring (blob_tok nw)) (parse_matches ms) in
+           print_endline (if b then "wfm=true" else "wfm=false")
+       | ["sdiff"; o; nw; ms] ->
+           let p = simple_diff (bytes_of_ostring (blob_tok o)) (bytes_of_ostring (blob_tok nw)) (parse_matches ms) in
+           let s = ostring_of_bytes p in
+           Printf.printf "sdiff=%d.%s\n" (Stdlib.String.length s) (hex_o (sha256_o s))
+       | ["varint"; "u"; x] ->
+           let v = n_of_decimal x in
+           (match dec_u (enc_u v) with
+            | VOk (y, []) -> Printf.printf "varint=%s:%s\n" (hex_o (ostring_of_bytes (enc_u v))) (decimal_of_n y)
+            | _ -> print_endline "varint=err")
        | _ -> failwith ("bad line: " ^ line)
      done
    with End_of_file -> ());
